@@ -341,6 +341,33 @@ struct Maths {
     sz: usize,
 }
 
+/// a type with a reflected, hand-written `Default` whose collections are NOT empty: a decoder that
+/// patches a default value instead of rebuilding the value keeps the default's leftovers
+#[derive(Component, Reflect, PartialEq, Debug, Clone)]
+#[reflect(Component, Default)]
+struct DefList {
+    items: Vec<u16>,
+    map: BTreeMap<u8, u8>,
+    inner: DefInner,
+    n: i32,
+}
+#[derive(Reflect, PartialEq, Debug, Clone)]
+#[reflect(Default)]
+struct DefInner {
+    names: Vec<String>,
+    flag: Option<u8>,
+}
+impl Default for DefInner {
+    fn default() -> Self {
+        DefInner { names: vec!["a".into(), "b".into()], flag: Some(3) }
+    }
+}
+impl Default for DefList {
+    fn default() -> Self {
+        DefList { items: vec![1, 2, 3], map: [(1u8, 1u8), (2, 2)].into_iter().collect(), inner: DefInner::default(), n: 7 }
+    }
+}
+
 fn fbits32(rng: &mut Rng) -> f32 {
     const S: [u32; 10] = [
         0x7FC00000, 0x7FC00001, 0x7F800001, 0x7F800000, 0xFF800000, 0x80000000, 0, 1, 0x3F800000, 0x7F7FFFFF,
@@ -425,6 +452,9 @@ fn register(reg: &mut TypeRegistry) {
     reg.register::<Vec<u16>>();
     r::<Handles>(reg);
     r::<Maths>(reg);
+    r::<DefList>(reg);
+    r::<bevy::pbr::CascadeShadowConfig>(reg);
+    reg.register::<Vec<String>>();
     r::<Transform>(reg);
     r::<Name>(reg);
     r::<Visibility>(reg);
@@ -552,6 +582,51 @@ fn gen_case(rng: &mut Rng, shape: usize) -> (&'static str, Case) {
             )
         }
         13 => ("Handle<Mesh>", mk(weak::<Mesh>(rng))),
+        16 => {
+            // collections shorter than, equal to and longer than the default's
+            let n = *rng.pick(&[0usize, 1, 2, 3, 4, 9]);
+            let mut map = BTreeMap::new();
+            for _ in 0..*rng.pick(&[0usize, 1, 2, 5]) {
+                map.insert(int_ext(rng) as u8, int_ext(rng) as u8);
+            }
+            (
+                "DefList",
+                mk(DefList {
+                    items: (0..n).map(|_| int_ext(rng) as u16).collect(),
+                    map,
+                    inner: DefInner {
+                        names: (0..*rng.pick(&[0usize, 1, 2, 3])).map(|_| string(rng)).collect(),
+                        flag: if rng.chance(1, 2) { None } else { Some(int_ext(rng) as u8) },
+                    },
+                    n: int_ext(rng) as i32,
+                }),
+            )
+        }
+        17 => {
+            let c: bevy::pbr::CascadeShadowConfig = bevy::pbr::CascadeShadowConfigBuilder {
+                num_cascades: rng.range(1, 6),
+                minimum_distance: 0.1,
+                maximum_distance: 10.0 + rng.below(1000) as f32,
+                first_cascade_far_bound: 2.0 + rng.below(5) as f32,
+                overlap_proportion: 0.2,
+            }
+            .build();
+            let orig = c.clone();
+            (
+                "CascadeShadowConfig",
+                Case {
+                    value: Box::new(c),
+                    rebuild_eq: Box::new(move |d| {
+                        bevy::pbr::CascadeShadowConfig::from_reflect(d).map(|x| {
+                            x.bounds.len() == orig.bounds.len()
+                                && x.bounds.iter().zip(orig.bounds.iter()).all(|(a, b)| a.to_bits() == b.to_bits())
+                                && x.overlap_proportion.to_bits() == orig.overlap_proportion.to_bits()
+                                && x.minimum_distance.to_bits() == orig.minimum_distance.to_bits()
+                        })
+                    }),
+                },
+            )
+        }
         14 => ("Handle<StandardMaterial>", mk(weak::<StandardMaterial>(rng))),
         _ => {
             let opt = |rng: &mut Rng| if rng.chance(1, 2) { None } else { Some(weak::<Image>(rng)) };
@@ -625,7 +700,7 @@ fn gen_case(rng: &mut Rng, shape: usize) -> (&'static str, Case) {
     }
 }
 
-pub const SHAPES: usize = 16;
+pub const SHAPES: usize = 18;
 
 pub fn run(out: &mut Out, rng: &mut Rng, seed: u64, count: usize) {
     let mut reg = TypeRegistry::default();
